@@ -1,3 +1,4 @@
+import Cctp.Lemmas.Batch
 import Cctp.Lemmas.Typed
 import Cctp.Lemmas.Wire
 /-
@@ -225,5 +226,27 @@ theorem query_counter (ext : Ext) (st : Store) (d n : Nat) (h : getNextNonce st 
 /-! non-vacuity -/
 example : counter [(Key.nextNonce, .nonce 0 7)] = 7 := by decide
 example : counter [] = 0 := by decide
+
+
+/-- **Consecutive nonces over multi-message transactions**: the producers of the committed transactions receive
+    `start, start+1, …` in order — several sends inside one transaction get consecutive nonces, and the nonces
+    handed out inside a transaction that fails are handed out again — and the counter ends at
+    `start + #successful producers in committed transactions`. -/
+theorem nonce_sequence_txs (ext : Ext) (cfg : Cfg) (txs : List Txn) (w : World) (hs : w.settle = w)
+    (hc : counter w.store < 2 ^ 64) :
+    producerNonces (committed ext cfg w txs) (txResults ext cfg w txs)
+      = (List.range (successes (committed ext cfg w txs) (txResults ext cfg w txs))).map (fun i => u64 (counter w.store + i)) ∧
+    counter (runTxs ext cfg w txs).1.store
+      = u64 (counter w.store + successes (committed ext cfg w txs) (txResults ext cfg w txs)) := by
+  rw [txResults, runTxs_results ext cfg txs w hs, runTxs_flatten ext cfg txs w hs]
+  exact nonce_sequence ext cfg _ w hc
+
+/-- a transaction that fails as a whole consumes no nonce, however many of its messages had reserved one. -/
+theorem failed_tx_keeps_counter (ext : Ext) (cfg : Cfg) (w : World) (tx : Txn) (h : (deliverTx ext cfg w tx).2 = none) :
+    counter (deliverTx ext cfg w tx).1.store = counter w.store := by
+  unfold deliverTx at h ⊢
+  split at h
+  · simp at h
+  · rfl
 
 end Cctp.C07
